@@ -6,6 +6,7 @@ import Driver.RepoD
 import Driver.FilterD
 import Driver.C12
 import Driver.C14
+import Driver.THash
 /-! `mlsmodel <mode>`: reads queries from stdin, prints one model answer per line. -/
 
 def splitWs (line : String) : List String :=
@@ -26,8 +27,12 @@ def main (args : List String) : IO UInt32 := do
   | ["repo"] => loopS stdin stdout Driver.RepoD.step { backend := .mem, ret := 3 }; return 0
   | ["filter"] => loopS stdin stdout (fun (_ : Unit) ws => ((), Driver.FilterD.handle ws)) (); return 0
   | ["small"] => loopS stdin stdout (fun (_ : Unit) ws => ((), Driver.Small.handle ws)) (); return 0
-  | ["tree"] => loopS stdin stdout Driver.TreeD.step {}; return 0
+  | ["tree"] =>
+    -- tree-layer rows; the tree-hash rows of the same stream are answered by the (stateless) tree-hash model
+    loopS stdin stdout (fun (st : Driver.TreeD.St) ws =>
+      if ws.head? == some "thashspec" then (st, Driver.THash.handle ws) else Driver.TreeD.step st ws) {}; return 0
   | ["c12"] => loopS stdin stdout (fun (_ : Unit) ws => ((), Driver.C12.handle ws)) (); return 0
   | ["c14"] => loopS stdin stdout (fun (_ : Unit) ws => ((), Driver.C14.handle ws)) (); return 0
+  | ["thash"] => loopS stdin stdout (fun (_ : Unit) ws => ((), Driver.THash.handle ws)) (); return 0
   | ["c13"] => loopS stdin stdout Driver.C13.step {}; return 0
   | _ => IO.eprintln "usage: mlsmodel <mode>"; return 2
